@@ -318,7 +318,7 @@ def rule_units(chk, rid, runs, repo):
             ls = last_set(st) or set()
             after_copy = bool(ls) and all(y.startswith("Copy[") for y in ls)
             want = capc - D + (ONE if after_copy else Lin.const(0))
-            ok, why = prove_eq(st, units - want)
+            ok, why = prove_eq_cases(it, st, units - want)
             if early and ok is not False:
                 continue
             chk.decide(rid, cons, ok, f"units - (capacity[{capc}] - depth{' + 1 after Copy' if after_copy else ''}): {why}"
@@ -373,3 +373,35 @@ def rule_adv(chk, rid, runs, names=("n_advance", "mixed_step_memoization")):
                 continue
             chk.decide(rid, cons, verdict, f"steps argument {st.reduce(steps)} vs max_n - r - position: {why or 'equal'}"
                        + cfgs(run_), rel=run_.rel, node=node)
+
+
+# ------------------------------------------------------------------ configuration attributes
+def rule_config(chk, rid, repo, classes=None):
+    """attributes that hold constructor parameters (the declared units, period, storage, trajectory ...) are
+    written by the constructor only: every analysis starts from the constructor's facts about them, and a
+    schedule that changes its own parameters while iterating no longer follows them"""
+    chk.describe(rid, "constructor-parameter attributes (units, period, storages) are not re-assigned outside __init__")
+    state = {"_n", "_r", "_max_n", "_exhausted", "iter"}
+    for cname in (classes or repo.schedule_classes()):
+        rel, c = repo.find_class(cname)
+        inits = set()
+        for _, cc in repo.mro(cname):
+            for f in cc.body:
+                if isinstance(f, ast.FunctionDef) and f.name == "__init__":
+                    inits |= attr_stores(f)
+        cfg = inits - state
+        for f in c.body:
+            if not isinstance(f, ast.FunctionDef) or f.name == "__init__":
+                continue
+            for n in ast.walk(f):
+                if isinstance(n, ast.Attribute) and isinstance(n.ctx, (ast.Store, ast.Del)) and isinstance(n.value, ast.Name) \
+                        and n.value.id == "self" and n.attr in cfg:
+                    chk.decide(rid, f"{rel[:-3]}.{cname}.{f.name}#store-{n.attr}", False,
+                               f"{cname}.{f.name} re-assigns self.{n.attr}, which holds a constructor parameter: later blocks / "
+                               "passes run with other parameters than the schedule was built with", rel=rel, node=n)
+        chk.decide(rid, f"{rel[:-3]}.{cname}#config-attributes", True,
+                   f"constructor-parameter attributes {sorted(cfg)} have no writer outside __init__" , rel=rel, node=c, nontrivial=False) \
+            if not any(o.rule == rid and o.construct.startswith(f"{rel[:-3]}.{cname}.") and o.verdict == REFUTED_ for o in chk.obs) else None
+
+
+REFUTED_ = "REFUTED"
